@@ -464,19 +464,8 @@ def run(ctx):
     # ---- R4 ----------------------------------------------------------------------------------
     r4 = ctx.rule("C10.R4", "in Fdt::publish the push to the FDT queue is followed by set_published() on every entry of self.files, "
                             "and the instance content is serialised before either", "PAIR")
-    marks = []
-    for s in call_sites(pub, lambda p, c: re.search(r"Iterator::for_each$", p) is not None):
-        srcs = sl.sources(s.expr)
-        if any(z.startswith("var:self.files") for z in srcs):
-            for z in srcs:
-                if z.startswith("closure:"):
-                    cf = prog.funcs.get(z[len("closure:"):])
-                    if cf and any(True for _ in call_sites(cf, lambda p, cc: p == "sender::filedesc::FileDesc::set_published")):
-                        marks.append(s.bb)
-    # also accept a plain for loop calling set_published
-    for s in call_sites(pub, lambda p, c: p == "sender::filedesc::FileDesc::set_published"):
-        if "self.files" in " ".join(sl.sources(s.expr[2][0])):
-            marks.append(s.bb)
+    # every entry of self.files is marked: `files.iter().for_each(|f| f.set_published())` or the same as an explicit loop
+    marks = [bb for bb, how, _s in foreach_sites(prog, pub, r"^self\.files\b", lambda p: p == "sender::filedesc::FileDesc::set_published")]
     for s in pushes:
         ok, w = flow.postdominated_by(s.bb, lambda b: b in marks)
         if ok and marks:
